@@ -211,6 +211,31 @@ func vGenSessions(r *rand.Rand, conflict bool) []vSess {
 			}
 		}
 	}
+	// what the speaker produces for a pool with two BGPAdvertisements, the second restricted to one peer: two sessions
+	// share an advertisement, one of them has, listed after it, a second one of the same prefix with another community;
+	// the other session carries that community on some other prefix
+	if len(out) >= 2 && !conflict && r.Intn(3) == 0 {
+		i := r.Intn(len(out))
+		j := (i + 1 + r.Intn(len(out)-1)) % len(out)
+		has := func(s vSess, p string) bool {
+			for _, a := range s.Advs {
+				if a.Prefix == p {
+					return true
+				}
+			}
+			return false
+		}
+		p, q := vPfx4[r.Intn(2)], vPfx4[2+r.Intn(2)]
+		c1, c2 := vComms[0], vComms[1+r.Intn(len(vComms)-1)]
+		if r.Intn(3) == 0 {
+			c2 = vLarge[r.Intn(len(vLarge))]
+		}
+		if !has(out[i], p) && !has(out[j], p) && !has(out[j], q) {
+			lp := []uint32{0, 100}[r.Intn(2)]
+			out[i].Advs = append(out[i].Advs, vAdv{Prefix: p, LP: lp, Comms: []string{c1}}, vAdv{Prefix: p, LP: lp, Comms: []string{c2}})
+			out[j].Advs = append(out[j].Advs, vAdv{Prefix: p, LP: lp, Comms: []string{c1}}, vAdv{Prefix: q, LP: 0, Comms: []string{c2}})
+		}
+	}
 	return out
 }
 
@@ -239,8 +264,20 @@ func vParams(s vSess) bgp.SessionParameters {
 }
 
 func vAdvertisements(s vSess) []*bgp.Advertisement {
+	return vAdvertisementsIn(s, nil)
+}
+
+// The speaker (bgp_controller.go) builds ONE []*bgp.Advertisement per service and hands the same elements to the
+// session of every peer: equal advertisements of different sessions are the same OBJECT.  pool != nil reproduces
+// that (one object per distinct content, shared by all sessions built with the same pool).
+func vAdvertisementsIn(s vSess, pool map[string]*bgp.Advertisement) []*bgp.Advertisement {
 	res := []*bgp.Advertisement{}
 	for _, a := range s.Advs {
+		key := fmt.Sprintf("%s|%d|%s", a.Prefix, a.LP, strings.Join(a.Comms, ","))
+		if adv, ok := pool[key]; ok {
+			res = append(res, adv)
+			continue
+		}
 		_, n, err := net.ParseCIDR(a.Prefix)
 		if err != nil {
 			panic(err)
@@ -253,9 +290,38 @@ func vAdvertisements(s vSess) []*bgp.Advertisement {
 			}
 			adv.Communities = append(adv.Communities, cc)
 		}
+		if pool != nil {
+			pool[key] = adv
+		}
 		res = append(res, adv)
 	}
 	return res
+}
+
+// number of (session, session) pairs of ss in the shape "one advertisement shared by both, and on the first only a
+// further advertisement of the same prefix with other communities listed after it"
+func vSharedThenExtra(ss []vSess) int {
+	n := 0
+	for i, a := range ss {
+		for j, b := range ss {
+			if i == j {
+				continue
+			}
+			for x, ax := range a.Advs {
+				for _, bx := range b.Advs {
+					if ax.Prefix != bx.Prefix || ax.LP != bx.LP || strings.Join(ax.Comms, ",") != strings.Join(bx.Comms, ",") {
+						continue
+					}
+					for _, ay := range a.Advs[x+1:] {
+						if ay.Prefix == ax.Prefix && strings.Join(ay.Comms, ",") != strings.Join(ax.Comms, ",") {
+							n++
+						}
+					}
+				}
+			}
+		}
+	}
+	return n
 }
 
 // ---- Coq terms (Model/FrrAst.v) ----
